@@ -41,6 +41,8 @@ type Exec struct {
 	initHeap map[string]*Term
 	axioms   []*Term
 	curResults []*Term // scalar result terms of the return being checked (nil entries for non-scalar results)
+	recvShape []recvField // reconstructible fields of the receiver (replay); nil: not reconstructible
+	recvType  *types.Named
 	preOnly  bool // callContractSig: check the precondition only (go statements)
 	nlAxioms []*Term // lemma axioms of the non-linear operators (added to a query only when needed)
 	axiomSet map[string]bool
